@@ -1549,6 +1549,18 @@ func (b *Bitmap) ImportRoaringBits(data []byte, clear bool, log bool, rowSize ui
 		return 0, nil, errors.New("failed to create roaring iterator, but don't know why")
 	}
 
+	// Walk the whole input once before touching b, so that a container that
+	// is out of bounds or of an unknown type rejects the import as a whole
+	// instead of leaving the containers before it applied and unlogged.
+	for _, _, _, _, _, itrErr = itr.Next(); itrErr == nil; _, _, _, _, _, itrErr = itr.Next() {
+	}
+	if itrErr != io.EOF {
+		return 0, nil, itrErr
+	}
+	if itr, err = newRoaringIterator(data); err != nil {
+		return 0, nil, err
+	}
+
 	rowSet = make(map[uint64]int)
 
 	var synthC Container
